@@ -56,7 +56,13 @@ func CopyToHertzRequest(req *http.Request, hreq *protocol.Request) error {
 		}
 	}
 	if req.Body != nil {
-		hreq.SetBodyStream(req.Body, hreq.Header.ContentLength())
+		// http.Request.ContentLength: -1 for a chunked body (there is no Content-Length header then),
+		// and 0 together with a real body means "unknown"
+		size := int(req.ContentLength)
+		if size == 0 && req.Body != http.NoBody {
+			size = -1
+		}
+		hreq.SetBodyStream(req.Body, size)
 	}
 	return nil
 }
